@@ -83,6 +83,9 @@ type SchedOut struct {
 	Violation  *hist.Violation  `json:"violation,omitempty"`
 	Trace      *SchedTrace      `json:"trace,omitempty"`
 	Stats      map[string]int64 `json:"stats"`
+	// SwitchSites: distinct yield sites at which a context switch happened.
+	SwitchSites []int  `json:"switch_sites,omitempty"`
+	SiteTotals  [3]int `json:"site_totals"` // all, hot, sync
 }
 
 var opMenu = []string{"ScalarBaseMult", "VarTimeDoubleScalarBaseMult", "ScalarMult", "MultiScalarMult", "VarTimeMultiScalarMult",
@@ -633,8 +636,23 @@ func runSched(t *SchedTrace, pol sched.Policy, schedSeed uint64, replay [][]sche
 		return so
 	}
 	h := sha256.New()
+	seenSite := map[int]bool{}
 	for _, d := range res.Log {
 		fmt.Fprintf(h, "%d %d %d %d %d\n", d.Task, d.Ord, d.Next, d.Kind, d.Site)
+		if d.Site >= 0 && !seenSite[d.Site] {
+			seenSite[d.Site] = true
+			so.SwitchSites = append(so.SwitchSites, d.Site)
+		}
+	}
+	sort.Ints(so.SwitchSites)
+	so.SiteTotals[0] = len(field.VerifSites)
+	for _, sd := range field.VerifSites {
+		if sd.Hot {
+			so.SiteTotals[1]++
+		}
+		if sd.Sync {
+			so.SiteTotals[2]++
+		}
 	}
 	if res.Deadlock {
 		so.Violation = viol("deadlock", "deadlock", fmt.Sprintf("no runnable task while tasks %v are blocked (concurrent callers can no longer make progress)", res.BlockedTasks))
